@@ -59,6 +59,10 @@ def states(tier, seed):
     for p, pr, fam in (("NC", "positron", "unpol"), ("CC", "antineutrino", "unpol"), ("NC", "electron", "pol"), ("CC", "electron", "unpol")):
         out.append({"family": fam, "process": p, "projectile": pr, "heavyness": "total", "scheme": "FFNS3", "pto": 1, "tmc": 1, "target": "iron", "obscard": {"PolarizationDIS": 0.5, "PropagatorCorrection": 0.05}})
         out.append({"family": fam, "process": p, "projectile": pr, "heavyness": "light", "scheme": "ZM-VFNS", "pto": 1, "tmc": 0, "target": {"Z": 0.3, "A": 1.0}, "obscard": {"PolarizationDIS": -1.0}})
+    # combinations: TMC mode 3 + FFN0 / FONLL + polarised anti-lepton beam + nuclear target + scale variations off
+    for p, pr, sc in (("NC", "positron", "FFN03"), ("CC", "antineutrino", "FONLL-FFNS4"), ("NC", "positron", "FONLL-FFN03"), ("CC", "positron", "FFNS4")):
+        out.append({"family": "unpol", "process": p, "projectile": pr, "heavyness": "total", "scheme": sc, "pto": 1, "tmc": 3, "target": "lead", "obscard": {"PolarizationDIS": 0.7}, "theory": {"RenScaleVar": False, "FactScaleVar": False, "MP": 1.2}})
+        out.append({"family": "unpol", "process": p, "projectile": pr, "heavyness": "charm", "scheme": sc, "pto": 1, "tmc": 2, "target": "neutron"})
     # O(a_s^3) light kernels (fl11 flavour class, N3LO order keys incl. all scale-variation keys)
     for p, pr in (("NC", "positron"), ("CC", "neutrino"), ("EM", "electron")):
         st = {"family": "unpol", "process": p, "projectile": pr, "heavyness": "light", "scheme": "ZM-VFNS", "pto": 3, "tmc": 0}
